@@ -96,6 +96,8 @@ fn real_main() {
     let a = |i: usize| args.get(i).map(|s| s.as_str()).unwrap_or("");
     let code = match a(1) {
         "selftest-docs" => selftest::docs(a(2).parse().unwrap_or(50)),
+        "selftest-determinism-one" => determinism_selftest(&[a(2)], a(3).parse().unwrap_or(2000), env_seed()),
+        "selftest-determinism" => determinism_selftest(&["C01", "C02", "C09", "C12", "C13", "C14"], a(2).parse().unwrap_or(2000), env_seed()),
         "dump-doc" => {
             // pdfsim dump-doc <family> <k> <out path>
             let fam = match a(2) {
